@@ -454,17 +454,23 @@ func (v *FnVerifier) materialize(st *State, p Val, t types.Type, why string) str
 }
 
 // havocKeys replaces the listed heap keys by fresh versions (closed w.r.t. the new alloc).
-func (v *FnVerifier) havocKeys(st *State, ms *ModSet) {
-	all := ms.All
+// effectiveMods: the set havocKeys really replaces for ms.
+func (v *FnVerifier) effectiveMods(ms *ModSet) *ModSet {
 	if _, movesPos := ms.Keys["GH!sp"]; movesPos && v.trackEnd() {
 		// whatever moves a read position may also have run into the end of that stream
 		if _, ok := ms.Keys[hitEndKey]; !ok {
 			ms2 := newModSet()
 			ms2.union(ms)
 			ms2.add(KeyInfo{Key: hitEndKey, Ghost: "(Array Int Bool)"})
-			ms = ms2
+			return ms2
 		}
 	}
+	return ms
+}
+
+func (v *FnVerifier) havocKeys(st *State, ms *ModSet) {
+	ms = v.effectiveMods(ms)
+	all := ms.All
 	var keys []string
 	for k, ki := range ms.Keys {
 		v.ensureKey(ki)
